@@ -262,6 +262,11 @@ func (s *vRecScanner) Scan(ctx context.Context, r *scan.Request) (scan.Result, e
 		return nil, err
 	}
 	if pos {
+		// like the real scanners, the record is built from the request when the exchange is over: the
+		// request handed to a probe must still be that probe's when it ends, however long it takes
+		if r.DstIP != nil {
+			ip = r.DstIP.String()
+		}
 		return &vAppResult{Scan: s.kind, IP: ip, Port: r.DstPort}, nil
 	}
 	return nil, nil
